@@ -45,7 +45,7 @@ fn copy_patch(size_before: u32, size_after: u32, data: Vec<u8>) -> PatchFile {
 /// never unverified bytes: a failing digest check (before or after) makes apply_patch fail, and what it
 /// returns on success is exactly what was submitted to the "after" digest check
 #[kani::proof]
-#[kani::unwind(8)]
+#[kani::unwind(20)]
 #[kani::stub(std::fmt::format, vio::fmt_stub)]
 #[kani::stub(PatchFile::verify_base, verify_base_stub)]
 #[kani::stub(PatchFile::verify_patched, verify_patched_stub)]
